@@ -96,7 +96,8 @@ def jws_sign(alg, jwk, msg):
         if jwk["crv"] != crv:
             raise RefError("wrong curve")
         size = rjwk.CURVES[crv][1]
-        r, s = der_decode_sig(key.sign(msg, ec.ECDSA(CHASH[hs]())))
+        # RFC 6979 deterministic nonces: reference tokens are reproducible
+        r, s = der_decode_sig(key.sign(msg, ec.ECDSA(CHASH[hs](), deterministic_signing=True)))
         return r.to_bytes(size, "big") + s.to_bytes(size, "big")
     if alg == "EdDSA":
         if jwk["crv"] not in ("Ed25519", "Ed448"):
